@@ -117,6 +117,8 @@ def gen_world(seed, wi):
     if wi % 9 == 4 and not exome and not deep:
         # no read in the neutral region: the sample is refused while it is loaded - by the run and by the replay
         smp["no_neutral_reads"] = True
+    if rng.random() < 0.25:
+        smp["chr_prefix"] = True  # the alignment file names its contigs chr<name>
     build = rng.choice(["hg19", "hg19", "hg38"])
     if build == "hg19" and rng.random() < 0.2:
         # a header the build detection does not recognise (a contig named 22 of another length): aldy falls back
